@@ -111,36 +111,28 @@ def isoformat(dt: datetime.date | datetime.time | datetime.timedelta) -> str:
     """
     if isinstance(dt, (datetime.date, datetime.time)):
         return dt.isoformat()
-    dur: pendulum.Duration = (
-        dt
-        if isinstance(dt, pendulum.Duration)
-        else pendulum.duration(
-            days=dt.days,
-            seconds=dt.seconds,
-            microseconds=dt.microseconds,
-        )
-    )
+    if isinstance(dt, pendulum.Duration):
+        years, months = dt.years, dt.months
+        # `remaining_days` excludes whole weeks - count them back in.
+        days = dt.weeks * 7 + dt.remaining_days
+        hours, minutes = dt.hours, dt.minutes
+        seconds, micros = dt.remaining_seconds, dt.microseconds
+    else:
+        # Use the exact integer fields: going through float seconds loses
+        #   microseconds for durations longer than a few hundred years.
+        years = months = 0
+        days, micros = dt.days, dt.microseconds
+        hours, rem = divmod(dt.seconds, 3600)
+        minutes, seconds = divmod(rem, 60)
     datepart = "".join(
-        f"{p}{s}"
-        for p, s in (
-            (dur.years, "Y"),
-            (dur.months, "M"),
-            # `remaining_days` excludes whole weeks - count them back in.
-            (dur.weeks * 7 + dur.remaining_days, "D"),
-        )
-        if p
+        f"{p}{s}" for p, s in ((years, "Y"), (months, "M"), (days, "D")) if p
     )
     timepart = "".join(
         f"{p}{s}"
         for p, s in (
-            (dur.hours, "H"),
-            (dur.minutes, "M"),
-            (
-                f"{dur.remaining_seconds}.{dur.microseconds:06}"
-                if dur.microseconds
-                else dur.remaining_seconds,
-                "S",
-            ),
+            (hours, "H"),
+            (minutes, "M"),
+            (f"{seconds}.{micros:06}" if micros else seconds, "S"),
         )
         if p
     )
